@@ -209,6 +209,7 @@ fn gen_scenario(seed: u64) -> (Scenario, Strategy) {
         truncate_permille: *r.pick(&[0u64, 0, 0, 100]),
         rich_decls: r.chance(1, 2),
     };
+    let undo_permille = *r.pick(&[0u64, 0, 150, 300]);
     let docs: Vec<String> = ["main.incn", "other.incn", "side.incn"][..ndocs].iter().map(|s| s.to_string()).collect();
     let main_imports_other = ndocs >= 2 && r.chance(1, 2);
     let mut files: Vec<(String, String)> = Vec::new();
@@ -235,12 +236,22 @@ fn gen_scenario(seed: u64) -> (Scenario, Strategy) {
             };
             // versions: usually 1..n, sometimes continuing from an offset, always increasing inside a session
             let base = if r.chance(1, 5) { r.range(2, 40) as i64 } else { 1 };
+            let mut session_texts: Vec<(String, String)> = Vec::new();
             for i in 0..nver {
                 let v = base + i;
-                let tag = format!("{}_s{}_v{}", DOC_LETTERS[d], s, v);
                 let extra = if d == 0 && main_imports_other { Some("other") } else { None };
                 let exports = if d == 1 { Some("o_fn") } else { None };
-                let text = gen_text(&mut r, &knobs, &tag, v, extra, exports);
+                // "undo" / no-op save: the new version carries exactly the text of an earlier version of this session
+                // (same text => same attribution tag; only the version number is new)
+                let (tag, text) = if i >= 1 && undo_permille > 0 && r.below(1000) < undo_permille {
+                    let back = if i >= 2 && r.chance(2, 3) { session_texts.len() - 2 } else { session_texts.len() - 1 };
+                    session_texts[back].clone()
+                } else {
+                    let tag = format!("{}_s{}_v{}", DOC_LETTERS[d], s, v);
+                    let text = gen_text(&mut r, &knobs, &tag, v, extra, exports);
+                    (tag, text)
+                };
+                session_texts.push((tag.clone(), text.clone()));
                 if i == 0 {
                     evs.push(Ev::Open { doc: d, version: v, tag, text });
                 } else {
